@@ -41,20 +41,28 @@ def Series(params: SeriesParams) -> h.Module:
     if params.nser == 1:
         return Wrapper(params.unit)  # Easy mode
 
+    from .instantiable import io
+
     # Initialize our stack-module
     m = h.Module()
 
-    # Copy the unit-cell ports
-    for p in params.unit.ports.values():
-        m.add(deepcopy(p))
+    # Copy the unit-cell ports, Signal and Bundle valued.
+    # All but the two series ports are wired in parallel.
+    unit_conns = {p.name: m.add(_copy_port(p)) for p in io(params.unit).values()}
 
-    # Divy up the ports by series vs parallel connections
+    # Sort out the two series ports
     series_conns = _seriesconns(m, params.conns)
-    par_ports = [port for port in m.ports.values() if port not in series_conns]
-    unit_conns = {port.name: port for port in par_ports}
+    if series_conns[0].width != series_conns[1].width:
+        msg = f"Series: series ports {series_conns[0].name} and {series_conns[1].name} have different widths"
+        raise ValueError(msg)
 
     # Create the internal series-connected signals, and concatenate them with the series ports
-    i = m.add(h.Signal(name="i", width=params.nser - 1))
+    # Each of the `nser - 1` internal nodes is as wide as the series ports.
+    iname = "i"
+    while iname in m.namespace:
+        iname += "_"  # Avoid colliding with the unit cell's port names
+    width = series_conns[0].width * (params.nser - 1)
+    i = m.add(h.Signal(name=iname, width=width))
     unit_conns[series_conns[0].name] = h.Concat(series_conns[0], i)
     unit_conns[series_conns[1].name] = h.Concat(i, series_conns[1])
 
@@ -125,13 +133,22 @@ def Wrapper(m: h.Instantiable) -> h.Module:
 
     # Copy the inner-cell ports
     # Note this also serves as the connections-dict to the inner instance
-    wrapper_io = {p.name: wrapper.add(deepcopy(p)) for p in io(m).values()}
+    wrapper_io = {p.name: wrapper.add(_copy_port(p)) for p in io(m).values()}
 
     # Create the inner instance
     wrapper.add(h.Instance(name="inner", of=m)(**wrapper_io))
 
     # And return the wrapper
     return wrapper
+
+
+def _copy_port(p: Union[h.Signal, h.BundleInstance]) -> Union[h.Signal, h.BundleInstance]:
+    """Copy a Signal or Bundle valued port, for use as the same-named port of another Module."""
+    if isinstance(p, h.BundleInstance):
+        return h.BundleInstance(
+            name=p.name, of=p.of, port=True, flipped=p.flipped, role=p.role
+        )
+    return deepcopy(p)
 
 
 @h.paramclass
